@@ -9,7 +9,19 @@ from sx.run import TAGCHARS
 
 PID = "C07"
 VENDOR = ["INTU.BID", "X.Y", "A.B.C"]
-KINDS = ["unknown_element", "unknown_empty", "unknown_aggregate_with_known_child", "vendor_element", "vendor_aggregate"]
+KINDS = ["unknown_element", "unknown_empty", "unknown_aggregate_with_known_child", "vendor_element", "vendor_aggregate", "unknown_named_like_attribute"]
+
+
+def attribute_like_names(K):
+    """tags that are not children of K but spell a python-level attribute of the class (COUNT, INDEX, SPEC, STATEMENTS ...)"""
+    spec = set(K.spec) | set([ofxgen.wire_tag(K, a).lower() for a in K.spec])
+    out = []
+    for n in dir(K):
+        if n.startswith("_") or n in spec or not n.isascii():
+            continue
+        if all([(c.isalnum() or c in "._") for c in n]) and n.upper() != n.lower():
+            out.append(n.upper())
+    return sorted(set(out))
 
 
 def doc_for(K):
@@ -59,6 +71,8 @@ def containers(tree, maxdepth):
 def make_node(ctx, kind, suffix, enclosing_cls, host):
     if kind.startswith("vendor"):
         tag = ctx.enum("vtag" + suffix, VENDOR)
+    elif kind == "unknown_named_like_attribute":
+        tag = ctx.enum("atag" + suffix, attribute_like_names(enclosing_cls))
     else:
         tag = ctx.str("utag" + suffix, 2, TAGCHARS)
         names = list(enclosing_cls.spec.keys())
@@ -68,7 +82,7 @@ def make_node(ctx, kind, suffix, enclosing_cls, host):
         ctx.assume("." not in tag)
     node = ET.Element("X")
     node.tag = tag
-    if kind in ("unknown_element", "vendor_element"):
+    if kind in ("unknown_element", "vendor_element", "unknown_named_like_attribute"):
         node.text = ctx.str("text" + suffix, 1, [(0x21, 0x7E)])
     elif kind in ("unknown_aggregate_with_known_child", "vendor_aggregate"):
         if len(host):
@@ -81,7 +95,7 @@ def make_node(ctx, kind, suffix, enclosing_cls, host):
     return node
 
 
-def h_insert(ctx, cls, ninsert, maxdepth):
+def h_insert(ctx, cls, ninsert, maxdepth, kinds=None):
     K = ofxgen.class_by_name(cls)
     inst = doc_for(K)
     clean = inst.to_etree()
@@ -92,7 +106,7 @@ def h_insert(ctx, cls, ninsert, maxdepth):
         hosts = containers(tree, maxdepth)
         hosts = [h for h in hosts if getattr(ofxgen.ofxtools.models, h.tag, None) is not None and "." not in h.tag]
         host = hosts[ctx.choice(f"host{k}", list(range(len(hosts))))]
-        kind = ctx.choice(f"kind{k}", KINDS)
+        kind = ctx.choice(f"kind{k}", kinds or KINDS[:5])
         pos = ctx.choice(f"pos{k}", list(range(len(host) + 1)))
         node = make_node(ctx, kind, str(k), getattr(ofxgen.ofxtools.models, host.tag), host)
         host.insert(pos, node)
@@ -116,7 +130,7 @@ def h_adjacent(ctx, cls):
     tree = copy.deepcopy(clean)
     pos = ctx.choice("pos", list(range(len(tree) + 1)))
     kind0 = ctx.choice("kind0", ["vendor_element", "vendor_aggregate"])
-    kind1 = ctx.choice("kind1", KINDS)
+    kind1 = ctx.choice("kind1", KINDS[:5])
     first = make_node(ctx, kind0, "0", K, tree)
     second = make_node(ctx, kind1, "1", K, tree)
     tree.insert(pos, first)
@@ -133,7 +147,7 @@ HARNESSES = dict(insert=h_insert, adjacent=h_adjacent)
 
 META = dict(
     bounds=dict(insertions="two adjacent nodes (vendor node + any kind) at every position of the root (quick: core classes; thorough: every class); quick: 1 node at depth <= 1; thorough: 1 node at depth <= 2 for every class and 2 nodes at depth <= 1 for core classes (per-instance budget 6000 paths)",
-                tags="unknown tag: 2 symbolic characters over A-Z 0-9 . _ differing from every child name; vendor tags INTU.BID, X.Y, A.B.C",
+                tags="unknown tag named like a python attribute of the enclosing class (COUNT, INDEX, SPEC, ...: symbolic choice); unknown tag: 2 symbolic characters over A-Z 0-9 . _ differing from every child name; vendor tags INTU.BID, X.Y, A.B.C",
                 kinds=KINDS),
     models=["instrumented from_etree/_convert/update_args/groom (+ MFINFO/STOCKINFO/MAIL overrides)", "copy.deepcopy of element trees (native)",
             "list.index / str.lower on symbolic tags", "warnings.warn"],
@@ -151,7 +165,11 @@ def instances(tier, seed):
                             opts=dict(wall_s=120, max_paths=3000)))
             if ofxgen.is_core(K):
                 out.append(dict(name=f"adjacent[{n}]", harness="adjacent", fn=h_adjacent, params=dict(cls=n), opts=dict(wall_s=120, max_paths=3000)))
+                out.append(dict(name=f"insert[{n},attribute-like name]", harness="insert", fn=h_insert,
+                                params=dict(cls=n, ninsert=1, maxdepth=0, kinds=KINDS[5:]), opts=dict(wall_s=120, max_paths=3000)))
         else:
+            out.append(dict(name=f"insert[{n},attribute-like name]", harness="insert", fn=h_insert,
+                            params=dict(cls=n, ninsert=1, maxdepth=1, kinds=KINDS[5:]), opts=dict(wall_s=240, max_paths=6000)))
             out.append(dict(name=f"adjacent[{n}]", harness="adjacent", fn=h_adjacent, params=dict(cls=n), opts=dict(wall_s=240, max_paths=6000)))
             # every class: one insertion down to depth 2; core classes additionally two insertions at depth <= 1
             out.append(dict(name=f"insert[{n},1,depth2]", harness="insert", fn=h_insert, params=dict(cls=n, ninsert=1, maxdepth=2),
